@@ -26,6 +26,7 @@ ASSUMPTIONS = [
     "--drop-tables+=GPOS / GDEF: only glyph sequences are compared (HarfBuzz falls back to heuristic mark positioning / synthesized glyph classes)",
     "fonts with many mapped characters: requests are all subsets of a 6 (8) character focus alphabet chosen from the layout-active characters, every single character and every co-size<=1 set of the whole character set (all pairs of the whole set in thorough for the rotating AOTS representatives); texts are over the focus alphabet",
     "large corpus fonts (> 60 kB compiled), bitmap/SVG colour fonts and VARC fonts are not subset here; WOFF/WOFF2 output flavours are not exercised (HarfBuzz reads sfnt only)",
+    "fonts whose Unicode cmap subtables map one code point to different glyphs (AOTS cmap_subtableselection) are outside the by-character oracle: the glyph of a character is then the client's choice of subtable",
     "hinting instructions are not executed; --no-hinting is checked for outline identity and absence of instructions only",
 ]
 
